@@ -1,4 +1,5 @@
 import PyGam.Proofs.Dists
+import PyGam.Model.DistState
 import PyGam.Gen.Tables
 /-!
 # C06 — each family's variance function, deviance, log-density, scale and sampler agree
@@ -187,6 +188,93 @@ theorem phi_estimated (fam : Family) (levels : ℝ) (n : Nat) (edof : ℝ) (w y 
   congr 1
   apply sum_congr rfl; intro i _
   rw [div_div_eq_mul_div]; ring
+
+/-! ### the scale estimate across histories: `phi` reads the pair (`_known_scale`, `scale`), `Model/DistState.lean`
+
+`GAM._estimate_model_statistics` stores every estimate in `distribution.scale` and a generic `GAM` keeps its distribution
+object from fit to fit, so "the scale estimate is the weighted Pearson statistic divided by (n - edof), or the
+user-supplied scale when one is given" has to hold for an object whose `scale` attribute already holds an earlier
+estimate: a stored value is not a user-supplied one. -/
+
+/-- a freshly constructed object: `phiAt` is the `phi` of the statements above -/
+theorem phiAt_init (known : Option ℝ) (fam : Family) (levels : ℝ) (x : PhiData ℝ) :
+    phiAt (DistState.init known) fam levels x = some (phi known fam levels x.n x.edof x.w x.y x.mu) := by
+  cases known <;> simp [phiAt, DistState.init, phi]
+
+/-- "the scale estimate is the weighted Pearson statistic divided by (n - edof)" whatever the `scale` attribute
+holds, as long as no scale was supplied (`_known_scale = False`): a value stored by an earlier estimate is ignored -/
+theorem phiAt_stored_ignored (stored : Option ℝ) (fam : Family) (levels : ℝ) (x : PhiData ℝ) :
+    phiAt ⟨false, stored⟩ fam levels x
+      = some ((∑ i ∈ range x.n, (x.y i - x.mu i) ^ 2 / varFnW fam levels (x.w i) (x.mu i)) / ((x.n : ℝ) - x.edof)) := by
+  simp only [phiAt, Bool.false_eq_true, if_false, ← phi_estimated]
+  rfl
+
+/-- "or the user-supplied scale when one is given": `_known_scale = True` returns the attribute -/
+theorem phiAt_known (s : Option ℝ) (fam : Family) (levels : ℝ) (x : PhiData ℝ) :
+    phiAt ⟨true, s⟩ fam levels x = s := by
+  simp [phiAt]
+
+/-- a sequence of fits never changes `_known_scale` … -/
+theorem history_known_flag (d : DistState ℝ) (fam : Family) (levels : ℝ) (hist : List (PhiData ℝ)) :
+    (estimateHistory d fam levels hist).known = d.known := by
+  induction hist generalizing d with
+  | nil => rfl
+  | cons x xs ih =>
+    simp only [estimateHistory]
+    rw [ih]
+    unfold estimateStep
+    split <;> rfl
+
+/-- … and leaves an object with a supplied scale untouched -/
+theorem history_known_fixed (d : DistState ℝ) (hd : d.known = true) (fam : Family) (levels : ℝ)
+    (hist : List (PhiData ℝ)) : estimateHistory d fam levels hist = d := by
+  induction hist with
+  | nil => rfl
+  | cons x xs ih => simp only [estimateHistory, estimateStep, hd, if_true]; exact ih
+
+/-- the scale estimate after ANY history of earlier fits of the same object (no scale supplied: normal, gamma,
+inverse gaussian built with `scale=None`) is the Pearson estimate of the CURRENT data -/
+theorem phi_after_history_estimated (fam : Family) (hfam : fam = .normal ∨ fam = .gamma ∨ fam = .invGauss)
+    (levels : ℝ) (hist : List (PhiData ℝ)) (x : PhiData ℝ) :
+    phiAt (estimateHistory (mkDist fam none) fam levels hist) fam levels x
+      = some ((∑ i ∈ range x.n, (x.y i - x.mu i) ^ 2 / varFnW fam levels (x.w i) (x.mu i)) / ((x.n : ℝ) - x.edof)) := by
+  have hk : (estimateHistory (mkDist fam none) fam levels hist).known = false := by
+    rw [history_known_flag]; rcases hfam with rfl | rfl | rfl <;> rfl
+  have := phiAt_stored_ignored (estimateHistory (mkDist fam none) fam levels hist).scale fam levels x
+  rw [← this]
+  congr 1
+  cases h : estimateHistory (mkDist fam none) fam levels hist with
+  | mk k s => rw [h] at hk; simp only at hk; subst hk; rfl
+
+/-- `statistics_['scale']` (the stored attribute) after the last of a sequence of fits is the estimate of that last fit -/
+theorem stat_scale_after_history (fam : Family) (hfam : fam = .normal ∨ fam = .gamma ∨ fam = .invGauss)
+    (levels : ℝ) (hist : List (PhiData ℝ)) (x : PhiData ℝ) :
+    (estimateHistory (mkDist fam none) fam levels (hist ++ [x])).scale
+      = some (phi none fam levels x.n x.edof x.w x.y x.mu) := by
+  have happ : ∀ (d : DistState ℝ) (l : List (PhiData ℝ)),
+      estimateHistory d fam levels (l ++ [x]) = estimateStep (estimateHistory d fam levels l) fam levels x := by
+    intro d l
+    induction l generalizing d with
+    | nil => rfl
+    | cons a l ih => simp only [List.cons_append, estimateHistory]; exact ih _
+  have hk : (estimateHistory (mkDist fam none) fam levels hist).known = false := by
+    rw [history_known_flag]; rcases hfam with rfl | rfl | rfl <;> rfl
+  rw [happ, estimateStep, if_neg (by simp [hk])]
+  show phiAt _ fam levels x = _
+  rw [phi_after_history_estimated fam hfam, phi_estimated]
+
+/-- with a supplied scale (or binomial / poisson, whose scale is 1) every fit of every history reports that scale -/
+theorem phi_after_history_supplied (fam : Family) (s : ℝ) (levels : ℝ) (hist : List (PhiData ℝ)) (x : PhiData ℝ) :
+    phiAt (estimateHistory (mkDist fam (some s)) fam levels hist) fam levels x = some (famScale fam s)
+    ∧ (estimateHistory (mkDist fam (some s)) fam levels hist).scale = some (famScale fam s) := by
+  have hk : (mkDist fam (some s) : DistState ℝ).known = true := by cases fam <;> rfl
+  rw [history_known_fixed _ hk]
+  cases fam <;> simp [phiAt, mkDist, DistState.init, famScale]
+
+/-- non-vacuity / the regression this guards against: after a first estimate stored `1/4`, data with Pearson
+estimate `8` are reported as `8`, not as the stale `1/4` -/
+example : phiAt (⟨false, some (1/4)⟩ : DistState ℝ) .normal 1 ⟨2, 1, fun _ => 1, fun _ => 2, fun _ => 0⟩ = some 8 := by
+  rw [phiAt_stored_ignored]; norm_num [Finset.sum_range_succ, varFnW, varFn]
 
 /-! ### non-vacuity: the hypotheses are met by concrete non-trivial instances (incl. the boundary counts) -/
 example : validDom .binomial 5 5 (3/2) := by norm_num [validDom]
